@@ -4,6 +4,7 @@
    describes the code and every property file that requires this file stops checking. *)
 From Coq Require Import List NArith ZArith Bool String.
 Require Params Elements Grammar.
+Require LogicSpec.   (* decisions (operators, offsets, sortedness) read from the Python AST: gen/Logic.v *)
 Import ListNotations.
 Open Scope string_scope.
 
